@@ -67,6 +67,7 @@ struct Op {
   bool guarded = false;       // failure of the awaited object is caught inside the coroutine
   bool iterator = false;      // multi-await by iterator range
   bool task_is_coroutine = false;
+  int task_lvalue = 0;  // 0: co_await std::move(task); 1: co_await Await(task), read by const&, destroy the completed task; 2: Await, Touch&&
   bool yield_constant = false;
   std::vector<int> objs;      // indices into Case::objs
 };
@@ -140,6 +141,7 @@ class Case final : public sim::CaseBase {
             Obj o;
             // a failing MakeTask carries an error, a failing lazy coroutine throws
             o.outcome = g.Draw(4) == 3 ? (op.task_is_coroutine ? 2 : 1) : 0;
+            op.task_lvalue = static_cast<int>(g.Draw(3));
             o.id = 100U * static_cast<std::uint32_t>(k + 1) + 10U * static_cast<std::uint32_t>(i) + 7U;
             objs.push_back(o);
             op.objs.push_back(static_cast<int>(objs.size()) - 1);
@@ -194,6 +196,10 @@ class Case final : public sim::CaseBase {
           }
           j.EndArr();
           j.KV("form", op.iterator ? "iterator" : "variadic").KV("failure_caught", op.guarded);
+          if (op.kind == kAwaitTask) {
+            static const char* how[] = {"co_await std::move(task)", "co_await Await(task); Touch const&; ~Task", "co_await Await(task); Touch&&"};
+            j.KV("task_awaited_by", how[op.task_lvalue]);
+          }
         }
         j.End();
       }
@@ -608,7 +614,23 @@ R Interp(Case* c, int k) {
             got = {OKind::Value, v.Read("value of co_await shared future")};
           } else {
             const Obj& o = c->objs[static_cast<std::size_t>(oi)];
-            if (op.task_is_coroutine) {
+            if (op.task_lvalue != 0) {
+              // the task is started and awaited through an lvalue: it stays valid, becomes ready, and is read or destroyed later
+              auto t = op.task_is_coroutine ? SubTask(c, o.id, o.outcome != 0)
+                                            : (o.outcome != 0 ? yaclib::MakeTask<T, E>(E{o.id}) : yaclib::MakeTask<T, E>(T{o.id}));
+              co_await yaclib::Await(t);
+              if (!t.Valid() || !t.Ready()) {
+                sim::Fail("AWAIT_LEFT_FUTURE_UNUSABLE", "co_await Await(task) resumed but the task is not valid and ready");
+              } else if (op.task_lvalue == 1) {
+                SIM_PROBE("completed_task_destroyed");
+                yaclib::Result<T, E> copy = std::as_const(t).Touch();
+                T v = std::move(copy).Ok();
+                got = {OKind::Value, v.Read("value of Touch const& after co_await Await(task)")};
+              } else {
+                T v = std::move(t).Touch().Ok();
+                got = {OKind::Value, v.Read("value of Touch&& after co_await Await(task)")};
+              }
+            } else if (op.task_is_coroutine) {
               T v = co_await SubTask(c, o.id, o.outcome != 0);
               got = {OKind::Value, v.Read("value of co_await lazy coroutine")};
             } else if (o.outcome != 0) {
